@@ -14,6 +14,7 @@ def run(facts, tier):
         ("reset agreement", H.union_reset, 1, "reset() rebuilds the gadget with the constructor's parameters"),
         ("merge loops", H.merge_loops, 6, "every merge loop folds every source slot with max, no conditional skip"),
         ("register stores", H.register_stores, 10, "every register store is a max"),
+        ("tautologies", lambda fa: generic_lints.tautologies(fa, ('hll/',)), 2, "no comparison / assignment / min-max with two identical operands, no if-else with identical arms"),
         ("duplicate operands", lambda fa: generic_lints.duplicate_conjuncts(fa, ('hll/',)), 2, "no logical chain tests the same operand twice (copy-paste of the wrong peer)"),
     ):
         o = f(facts)
